@@ -1261,7 +1261,7 @@ def run(chk: Check) -> None:
                     c.range, c.range_sem = text, sem
                     cases.append(c)
     n_sys = len(cases) - n_corpus
-    n_rand = 16000 if quick else 320000
+    n_rand = 30000 if quick else 400000
     for i in range(n_rand):
         cases.append(gen_case(rng, focus="range" if i % 4 == 0 else None))
     seen_known: dict[str, int] = {}
